@@ -186,7 +186,7 @@ def transform(r: random.Random, text: str, counter: list):
         cid, k, l1, l2, node = r.choice(items)
         indent = len(lines[l1]) - len(lines[l1].lstrip(" "))
         counter[0] += 1
-        lines.insert(l1, " " * indent + r.choice(["# note %d", "# TODO(%d): check", "# see issue %d"]) % counter[0])
+        lines.insert(l1, " " * indent + r.choice(["# note %d", "# TODO(%d): check", "# see issue %d", "#\tkey = %d; (tab behind the hash)", "#\u00a0note %d", "#\u3000note %d", "#note %d", "##  note %d"]) % counter[0])
         return "\n".join(lines), kind
     if kind == "blank":
         cid, k, l1, l2, node = r.choice(items)
